@@ -19,6 +19,7 @@ package netpoll
 
 import (
 	"context"
+	"runtime"
 	"sync/atomic"
 
 	"github.com/cloudwego/netpoll/internal/runner"
@@ -111,10 +112,7 @@ func (c *connection) onPrepare(opts *options) (err error) {
 		c.ctx = context.Background()
 	}
 	// prepare may close the connection.
-	if c.IsActive() {
-		return c.register()
-	}
-	return nil
+	return c.register()
 }
 
 // onConnect is responsible for executing onRequest if there is new data coming after onConnect callback finished.
@@ -284,6 +282,10 @@ func (c *connection) closeCallback(needLock, needDetach bool) (err error) {
 	if needLock && !c.lock(processing) {
 		return nil
 	}
+	// a Close from another goroutine may arrive while the operator is being registered, see register
+	for !c.isUnlock(registering) {
+		runtime.Gosched()
+	}
 	if needDetach && c.operator.poll != nil { // If Close is called during OnPrepare, poll is not registered.
 		// PollDetach only happen when user call conn.Close() or poller detect error
 		if err := c.operator.Control(PollDetach); err != nil {
@@ -302,7 +304,14 @@ func (c *connection) closeCallback(needLock, needDetach bool) (err error) {
 
 // register only use for connection register into poll.
 func (c *connection) register() (err error) {
-	err = c.operator.Control(PollReadable)
+	// Since OnPrepare the connection is visible to the user, who may close it from another goroutine
+	// at any time. The close callbacks free the operator and close the descriptor: they wait until
+	// the registration is over (closeCallback), and a connection that is already closed is not registered.
+	c.lock(registering)
+	if c.IsActive() {
+		err = c.operator.Control(PollReadable)
+	}
+	c.unlock(registering)
 	if err != nil {
 		logger.Printf("NETPOLL: connection register failed: %v", err)
 		c.Close()
